@@ -1,7 +1,7 @@
 (* C13 -- data-parallel utilities equal their sequential definition: the property theorems.
    Models: Util/Reduce.v, Util/Sort.v, Util/Allpairs.v (extracted and compared with the real code on every run). *)
 From Coq Require Import List Arith NArith ZArith Permutation.
-From QV Require Import Util.Reduce Util.ReduceProofs Util.Sort Util.SortProofs Util.SortCorrect Util.MergeCorrect Util.Strided Util.Allpairs Util.AllpairsProofs.
+From QV Require Import Util.Reduce Util.ReduceProofs Util.Sort Util.SortProofs Util.SortCorrect Util.MergeCorrect Util.Strided Util.StridedThread Util.StridedPass Util.SortFinal Util.Allpairs Util.AllpairsProofs.
 Import ListNotations.
 
 (* the worker ranges of qt_loopaccum_balance_inner tile [start,stop): non-empty, consecutive, min(len,workers) of them,
@@ -93,74 +93,56 @@ Theorem partition_loop_terminates : forall (V : Type) (leb : V -> V -> bool) (df
 Proof. exact SortProofs.walls_terminates. Qed.
 Print Assumptions partition_loop_terminates.
 
-(* qsort_terminates_partial: the recursion measure.  Whenever one node (tri-median, partition passes, fix-up, pivot rule)
-   returns with rightwall < len, and 0 < rightwall unless pivots_done (NodeOK: the partition postcondition, assumed),
-   every recursive call is on a strictly shorter segment and fuel = len + 1 is enough, for every input. *)
-Theorem qsort_terminates_partial : forall (V : Type) (leb : V -> V -> bool) (dflt : V) (bound : N)
-  (base_sort : arr V -> N -> N -> arr V) (P : params) newrule stall_exit wfuel,
-  NodeOK V leb dflt bound P newrule stall_exit wfuel ->
-  forall fuel a b len, (b + len <= bound)%N -> (N.to_nat len < fuel)%nat ->
-  qsort_inner_gen V leb dflt bound base_sort P newrule stall_exit fuel wfuel a b len <> None.
-Proof. exact SortProofs.qsort_terminates_partial. Qed.
-Print Assumptions qsort_terminates_partial.
-
 (* ---- "terminate and leave a sorted permutation" ----
    OrderOK: the comparison is total and transitive.  BaseSortOK: the sort used below the cutoff (libc qsort,
    drf_qsort_dbl/_algt) returns its segment sorted and only rearranged.  SortedSeg a 0 len: a[i] <= a[j] for all
-   i <= j < len.  Fuel is explicit: length + 1. *)
+   i <= j < len.  Fuel is explicit: length + 1.  No other hypothesis. *)
 
-(* hypothesis-free for every array on which the parallel partition loop is not entered: qutil_qsort and
-   qutil_aligned_qsort up to 2*MT_LOOP_CHUNK+1 = 20001 elements (tri-median, sequential partition, pivot rule, recursion) *)
-Theorem qutil_qsort_sorted_permutation_upto_2chunks :
-  forall (V : Type) (leb : V -> V -> bool) (dflt : V) (bound : N) bs cacheline loop_chunk wfuel,
-  OrderOK V leb -> BaseSortOK V leb dflt bound bs ->
-  forall a len, (0 < len)%N -> (len <= 2 * loop_chunk + 1)%N -> (len <= bound)%N ->
-  exists a', qsort_inner V leb dflt bound bs (qutil_params cacheline loop_chunk) (S (N.to_nat len)) wfuel a 0%N len = Some a' /\
-             Permutation (to_list V dflt a bound) (to_list V dflt a' bound) /\
-             SortedSeg V leb dflt a' 0%N len /\ (forall k, (len <= k)%N -> aget V dflt a' k = aget V dflt a k).
-Proof. exact SortCorrect.qutil_qsort_sorted_permutation_upto_2chunks. Qed.
-Print Assumptions qutil_qsort_sorted_permutation_upto_2chunks.
+(* one pass of the strided multi-thread partitioner (sub-array [b', b'+len') holding at least one chunk per thread):
+   it returns, rearranges only the sub-array, its walls (l, r) have everything below l (up to r) <= pivot and everything
+   above r > pivot.  Proof: per-thread Hoare walk along the enumeration idx of the thread's slice (StridedThread), the
+   megachunk length computation = exactly the slice elements inside the sub-array, threads touch disjoint slices, walls
+   merged by min / max (StridedPass). *)
+Theorem strided_pass_correct : forall (V : Type) (leb : V -> V -> bool) (dflt : V) (bound : N) (P : params) (L : N),
+  strided_pass_post V leb dflt bound P L.
+Proof. exact SortFinal.strided_pass_post_holds. Qed.
+Print Assumptions strided_pass_correct.
 
-(* ... and qt_qsort on two shepherds, every length *)
-Theorem qt_qsort_sorted_permutation_2sheps :
-  forall (V : Type) (leb : V -> V -> bool) (dflt : V) (bound : N) bs wfuel,
-  OrderOK V leb -> BaseSortOK V leb dflt bound bs ->
-  forall a len, (0 < len)%N -> (len <= bound)%N ->
-  exists a', qsort_inner V leb dflt bound bs (qt_params 2) (S (N.to_nat len)) wfuel a 0%N len = Some a' /\
-             Permutation (to_list V dflt a bound) (to_list V dflt a' bound) /\
-             SortedSeg V leb dflt a' 0%N len /\ (forall k, (len <= k)%N -> aget V dflt a' k = aget V dflt a k).
-Proof. exact SortCorrect.qt_qsort_sorted_permutation_2sheps. Qed.
-Print Assumptions qt_qsort_sorted_permutation_2sheps.
-
-(* every parameter record (the three instances), every length: PARTIAL -- the only unproved ingredient is ONE pass of the
-   strided multi-thread partitioner, the named hypothesis strided_pass_post: the pass returns, rearranges only its
-   sub-array, and its walls (l, r) have everything below l (up to r) <= pivot and everything above r > pivot.
-   Proved around it: the partition loop with its no-progress exit (invariant + gap measure), tri-median, sequential
-   fix-up, pivot-is-maximum rule, the recursion measure (fuel = length + 1) and sortedness.  The loop-level consequence
-   of the hypothesis is evaluated on the extracted model for every generated input above the threshold on every run. *)
-Theorem qsort_returns_sorted_permutation_partial :
+(* every well-formed parameter record (ParamsWF: above the cutoff, every gap larger than the threshold holds at least one
+   chunk per partition thread), every array, every length *)
+Theorem qsort_returns_sorted_permutation :
   forall (V : Type) (leb : V -> V -> bool) (dflt : V) (bound : N) bs (P : params) L wfuel,
-  OrderOK V leb -> BaseSortOK V leb dflt bound bs ->
-  strided_pass_post V leb dflt bound P L ->
+  OrderOK V leb -> BaseSortOK V leb dflt bound bs -> ParamsWF P L ->
   forall a len, (0 < len)%N -> (len <= L)%N -> (len <= bound)%N ->
   exists a', qsort_inner V leb dflt bound bs P (S (N.to_nat len)) wfuel a 0%N len = Some a' /\
              Permutation (to_list V dflt a bound) (to_list V dflt a' bound) /\
              SortedSeg V leb dflt a' 0%N len /\ (forall k, (len <= k)%N -> aget V dflt a' k = aget V dflt a k).
-Proof. exact SortCorrect.qsort_returns_sorted_permutation_pass_inst. Qed.
-Print Assumptions qsort_returns_sorted_permutation_partial.
+Proof. exact SortFinal.qsort_returns_sorted_permutation. Qed.
+Print Assumptions qsort_returns_sorted_permutation.
 
-(* the partition loop from the single pass (segment of length len <= L at base b, any threshold, any walls satisfying
-   the invariant): it returns within gap+1 passes and re-establishes the invariant the fix-up needs *)
-Theorem partition_loop_correct :
-  forall (V : Type) (leb : V -> V -> bool) (dflt : V) (bound : N) (P : params) L b len p thresh,
-  strided_pass_post V leb dflt bound P L -> (len <= L)%N -> (b + len <= bound)%N ->
-  forall wfuel a lw rw, Iinv V leb dflt a b p len lw rw -> (N.to_nat (rw - lw) < wfuel)%nat ->
-  exists a2 lw2 rw2, walls V leb dflt bound P true wfuel a b thresh p lw rw = Some (a2, lw2, rw2) /\
-                     SegRel V dflt a a2 b len /\ Iinv V leb dflt a2 b p len lw2 rw2.
-Proof. exact SortCorrect.walls_spec. Qed.
-Print Assumptions partition_loop_correct.
+(* qutil_qsort and qutil_aligned_qsort (cache line 64, MT_LOOP_CHUNK 10000): every array of every length *)
+Theorem qutil_qsort_sorted_permutation :
+  forall (V : Type) (leb : V -> V -> bool) (dflt : V) (bound : N) bs wfuel,
+  OrderOK V leb -> BaseSortOK V leb dflt bound bs ->
+  forall a len, (0 < len)%N -> (len <= bound)%N ->
+  exists a', qsort_inner V leb dflt bound bs (qutil_params 64 10000) (S (N.to_nat len)) wfuel a 0%N len = Some a' /\
+             Permutation (to_list V dflt a bound) (to_list V dflt a' bound) /\
+             SortedSeg V leb dflt a' 0%N len /\ (forall k, (len <= k)%N -> aget V dflt a' k = aget V dflt a k).
+Proof. exact SortFinal.qutil_qsort_sorted_permutation. Qed.
+Print Assumptions qutil_qsort_sorted_permutation.
 
-(* groundwork for strided_pass_post (not yet connected to it): the index arithmetic of the strided threads.
+(* qt_qsort on ns shepherds: every array of every length (side condition true for ns <= 44: SortFinal.qt_side_condition) *)
+Theorem qt_qsort_sorted_permutation :
+  forall (V : Type) (leb : V -> V -> bool) (dflt : V) (bound : N) bs ns wfuel,
+  OrderOK V leb -> BaseSortOK V leb dflt bound bs -> (0 < ns)%N -> (10 * ns <= 2 * (10001 / ns))%N ->
+  forall a len, (0 < len)%N -> (len <= bound)%N ->
+  exists a', qsort_inner V leb dflt bound bs (qt_params ns) (S (N.to_nat len)) wfuel a 0%N len = Some a' /\
+             Permutation (to_list V dflt a bound) (to_list V dflt a' bound) /\
+             SortedSeg V leb dflt a' 0%N len /\ (forall k, (len <= k)%N -> aget V dflt a' k = aget V dflt a k).
+Proof. exact SortFinal.qt_qsort_sorted_permutation. Qed.
+Print Assumptions qt_qsort_sorted_permutation.
+
+(* the index arithmetic of the strided threads used by strided_pass_correct.
    idx k = (k / cs) * (cs*nt) + k mod cs enumerates, in increasing order, the local indices a thread owns; the code's
    left / right steps are exactly next / previous in that enumeration (no previous before the first), and the slices
    t*cs + idx k, t < nt, of the threads are pairwise disjoint and cover every index. *)
